@@ -189,6 +189,12 @@ func liftOne(pkg *packages.Package, repo string, s liftSpec) (string, error) {
 		fmt.Fprintf(&decl, "\t%s %s\n", v.Name(), types.TypeString(v.Type(), qual))
 	}
 	decl.WriteString("}\n\n")
+	// a by-name setter, so that a harness keeps compiling when the set of free variables changes
+	fmt.Fprintf(&decl, "func (env *zzEnv_%s) zzSet(name string, v any) bool {\n\tswitch name {\n", s.Name)
+	for _, v := range vars {
+		fmt.Fprintf(&decl, "\tcase %q:\n\t\tx, ok := v.(%s)\n\t\tif ok {\n\t\t\tenv.%s = x\n\t\t}\n\t\treturn ok\n", v.Name(), types.TypeString(v.Type(), qual), v.Name())
+	}
+	decl.WriteString("\t}\n\treturn false\n}\n\n")
 	ftype := types.TypeString(info.TypeOf(lit), qual)
 	fmt.Fprintf(&decl, "func zzLift_%s(env *zzEnv_%s) %s {\n\treturn %s\n}\n", s.Name, s.Name, ftype, body)
 	code := decl.String()
